@@ -606,7 +606,9 @@ fn main() {
                 let sizes: &[usize] = if tier == "thorough" { &[2, 3, 17, 63, 64, 65, 130, 257, 1025] } else { &[3, 64, 130] };
                 for &n in sizes {
                     for variant in 0..4 {
-                        g.eq_pairs_case(n, variant);
+                        for kinds in 0..3 {
+                            g.eq_pairs_case(n, variant, kinds);
+                        }
                     }
                 }
             }
